@@ -320,6 +320,7 @@ func (p *c13) RunCase(ctx *runner.Ctx) runner.CaseResult {
 		p.numberKeys(x, adapt.Adapters[ctx.Case-blocks], ctx)
 		p.keysSurviveIndexChurn(x, adapt.Adapters[ctx.Case-blocks])
 		p.keySchemas(x, adapt.Adapters[ctx.Case-blocks])
+		p.keyTypesOnEmptyTables(x, adapt.Adapters[ctx.Case-blocks])
 	case ctx.Case < blocks+4:
 		p.keyUpdates(x, adapt.Adapters[ctx.Case-blocks-2], ctx)
 	case ctx.Case < blocks+6:
@@ -665,6 +666,7 @@ func (p *c13) keySchemas(x *res, adapter string) {
 		raw("lower-case-key-type", [2]string{"h", "hash"}),
 		raw("hash-element-twice", [2]string{"h", "HASH"}, [2]string{"h", "HASH"}),
 		raw("no-hash-element", [2]string{"r", "RANGE"}),
+		raw("hash-and-range-same-attribute", [2]string{"h", "HASH"}, [2]string{"h", "RANGE"}),
 	)
 	for _, c := range cases {
 		cl := adapt.New(adapter)
@@ -734,6 +736,65 @@ func (p *c13) keysSurviveIndexChurn(x *res, adapter string) {
 		// the AddIndex helper declares its key attributes as strings: pointed at the number key it must be refused
 		if a := cl.Do(adapt.Op{Kind: adapt.OpAddIndex, Table: spec.Name, Ix: &adapt.IndexSpec{Name: "again", Hash: "r"}}); a.Class == adapt.ClsOK {
 			x.viol("key-attribute-retyped-after-index-deletion", feature, fmt.Sprintf("[%s] after deleting the indexes %v, AddIndex re-declared the number key attribute r as a string", adapter, order), wit)
+		}
+	}
+}
+
+// keyTypesOnEmptyTables: what type a key attribute has does not depend on whether the table holds items. On a table
+// with number keys that is EMPTY - fresh, cleared, or emptied item by item - a request that declares the key
+// attribute with another type (the AddIndex helper always declares strings; an UpdateTable with attribute
+// definitions) is refused, or at least changes nothing: afterwards number keys are still accepted, two notations of
+// one number are still one key, and a string is still no key value.
+func (p *c13) keyTypesOnEmptyTables(x *res, adapter string) {
+	spec := adapt.TableSpec{Name: "tbl13e", Hash: "h", HashT: "N", Range: "r", RangeT: "N", Billing: "PAY_PER_REQUEST"}
+	for _, how := range []string{"fresh", "cleared", "deleted-one-by-one"} {
+		for _, redeclare := range []string{"addindex-hash", "addindex-range", "updatetable-defs", "updatetable-create-index"} {
+			cl, _, ds := freshClient(adapter, spec)
+			if ds != nil {
+				return
+			}
+			first := val.Item{"h": val.Num("1"), "r": val.Num("2"), "v": val.Str("first")}
+			switch how {
+			case "cleared":
+				cl.Do(adapt.Op{Kind: adapt.OpPut, Table: spec.Name, Item: first})
+				cl.Do(adapt.Op{Kind: adapt.OpClearTable, Table: spec.Name})
+			case "deleted-one-by-one":
+				cl.Do(adapt.Op{Kind: adapt.OpPut, Table: spec.Name, Item: first})
+				cl.Do(adapt.Op{Kind: adapt.OpDelete, Table: spec.Name, Key: val.Item{"h": val.Num("1"), "r": val.Num("2")}})
+			}
+			var o adapt.Outcome
+			switch redeclare {
+			case "addindex-hash":
+				o = cl.Do(adapt.Op{Kind: adapt.OpAddIndex, Table: spec.Name, Ix: &adapt.IndexSpec{Name: "byh", Hash: "h"}})
+			case "addindex-range":
+				o = cl.Do(adapt.Op{Kind: adapt.OpAddIndex, Table: spec.Name, Ix: &adapt.IndexSpec{Name: "byr", Hash: "g", Range: "r"}})
+			case "updatetable-defs":
+				o = cl.Do(adapt.Op{Kind: adapt.OpUpdateTable, Table: spec.Name, Defs: [][2]string{{"h", "S"}}})
+			default:
+				o = cl.Do(adapt.Op{Kind: adapt.OpUpdateTable, Table: spec.Name, Chg: []adapt.IndexChange{{Create: &adapt.IndexSpec{Name: "byr", Hash: "r", HashT: "S"}}}})
+			}
+			x.r.Evals++
+			feature := how + "/" + redeclare
+			x.fp(true, "emptykeytypes|%s|%s", adapter, feature)
+			x.r.Counters["key_redeclarations_on_empty_tables"]++
+			wit := map[string]interface{}{"adapter": adapter, "spec": spec, "table": how, "redeclaration": redeclare, "outcome": o}
+			if o.Class == adapt.ClsRuntime {
+				x.viol("runtime-panic", o.Site, fmt.Sprintf("[%s] %s on a %s table: panic %s", adapter, redeclare, how, o.Msg), wit)
+				continue
+			}
+			p1 := cl.Do(adapt.Op{Kind: adapt.OpPut, Table: spec.Name, Item: val.Item{"h": val.Num("1"), "r": val.Num("2"), "v": val.Str("one")}})
+			p2 := cl.Do(adapt.Op{Kind: adapt.OpPut, Table: spec.Name, Item: val.Item{"h": val.Num("1.0"), "r": val.Num("2.00"), "v": val.Str("one again")}})
+			ps := cl.Do(adapt.Op{Kind: adapt.OpPut, Table: spec.Name, Item: val.Item{"h": val.Str("1"), "r": val.Str("2"), "v": val.Str("strings")}})
+			sc := cl.Do(adapt.Op{Kind: adapt.OpScan, Table: spec.Name})
+			x.r.Evals += 4
+			switch {
+			case p1.Class != adapt.ClsOK || p2.Class != adapt.ClsOK:
+				x.viol("key-attribute-retyped-on-empty-table", feature, fmt.Sprintf("[%s] after %s (class %s) on a %s table with number keys, PutItem with number keys answers %s / %s (%s)", adapter, redeclare, o.Class, how, p1.Class, p2.Class, p1.Msg+p2.Msg), wit)
+			case ps.Class == adapt.ClsOK:
+				x.viol("key-attribute-retyped-on-empty-table", feature, fmt.Sprintf("[%s] after %s (class %s) on a %s table with number keys, PutItem with STRINGS as key values is accepted", adapter, redeclare, o.Class, how), wit)
+			case len(sc.Items) != 1:
+				x.viol("key-attribute-retyped-on-empty-table", feature, fmt.Sprintf("[%s] after %s (class %s) on a %s table, the key 1/2 written as 1/2 and as 1.0/2.00 is %d items", adapter, redeclare, o.Class, how, len(sc.Items)), wit)
+			}
 		}
 	}
 }
